@@ -6,7 +6,20 @@ use crate::runner::{violation, RunCtx, RunReport, Stats, Verdict};
 
 pub fn scenario(g: &mut G, ctx: &RunCtx) -> RunReport {
     let max = if ctx.thorough { 600_000 } else { 200_000 };
-    let plan = bodyx::gen_plan(g, max);
+    let mut plan = bodyx::gen_plan(g, max);
+    // (no draw) two responses alive at once on one thread - the other one partly read before, finished after
+    // the exchange under test; and a response that was received on another thread than the one reading it
+    match (plan.payload.len() + plan.nsegs) % 7 {
+        5 => {
+            plan.twin = true;
+            g.probe("two-live-responses-interleaved");
+        }
+        6 => {
+            plan.send_on_other_thread = true;
+            g.probe("response-read-on-another-thread-than-sent");
+        }
+        _ => {}
+    }
     let ran = bodyx::run(&plan, ctx, false);
     let mut stats = Stats::default();
     stats.absorb(&ran.history);
@@ -28,6 +41,17 @@ pub fn scenario(g: &mut G, ctx: &RunCtx) -> RunReport {
 pub fn oracle(plan: &bodyx::BodyPlan, o: &Observed) -> Verdict {
     if let Some(e) = &o.send_err {
         return violation(format!("send-failed:{}", e), format!("send() failed with {} on a well-formed response", e));
+    }
+    if plan.twin {
+        match &o.twin {
+            None => return violation("twin:send-failed", "the first of two requests to the same origin failed"),
+            Some((_, Some(e))) => return violation(format!("twin:error-on-wellformed:{}", e), format!("the response that was kept alive during another exchange failed with {}", e)),
+            Some((got, None)) if got != &plan.payload => {
+                let at = got.iter().zip(plan.payload.iter()).position(|(a, b)| a != b).unwrap_or(got.len().min(plan.payload.len()));
+                return violation("twin:output-mismatch", format!("the response that was kept alive during another exchange read {} bytes, payload has {}, first difference at {}", got.len(), plan.payload.len(), at));
+            }
+            _ => {}
+        }
     }
     if o.status != plan.status {
         return violation("status-mismatch", format!("status {} != {}", o.status, plan.status));
